@@ -18,6 +18,9 @@ pub struct HashPoint;
 
 impl Sub for HashPoint {
     type Case = HashCase;
+    fn restrictable(&self) -> bool {
+        true
+    }
     fn name(&self) -> &'static str {
         "hash_to_point"
     }
@@ -118,6 +121,9 @@ fn derive(base: &[u8], kind: u8, p: u16) -> Vec<u8> {
 
 impl Sub for HashSequence {
     type Case = SeqCase;
+    fn restrictable(&self) -> bool {
+        true
+    }
     fn name(&self) -> &'static str {
         "hash_sequence"
     }
